@@ -49,6 +49,7 @@ type QCfg struct {
 	ShortReads      int      `json:"short_reads"` // 0 off, else 1/n chance to cut a read
 	TLS             bool     `json:"tls"`
 	TopicDiskFaults int      `json:"topic_disk_faults,omitempty"` // one in N writes to a topic's queue file fails (0 = never)
+	E2E             bool     `json:"e2e_percentiles,omitempty"` // --e2e-processing-latency-percentile given (quantile streams on every topic and channel)
 	Topology        bool     `json:"topology_aware,omitempty"` // --enable-experiment=topology-aware-consumption with region/zone set
 	Steer           []SteerRule `json:"steer,omitempty"`
 	NoDrain         bool     `json:"no_drain,omitempty"`
@@ -279,6 +280,10 @@ func (w *qWorld) newOptions() *nsqd.Options {
 	o.OutputBufferTimeout = ms(c.OBTMs)
 	o.ClientTimeout = ms(c.ClientTimeoutMs)
 	o.MaxHeartbeatInterval = 60 * time.Second
+	if c.E2E {
+		o.E2EProcessingLatencyPercentiles = []float64{0.99, 0.5}
+		o.E2EProcessingLatencyWindowTime = 2 * time.Second
+	}
 	if c.Topology {
 		o.TopologyRegion, o.TopologyZone = "r1", "z1"
 		o.Experiments = []string{"topology-aware-consumption"}
